@@ -20,6 +20,7 @@ R1.13 the parameter list a signature is rendered from is sorted required-first a
 R1.12 spec text placed after a `#` has every line boundary removed (otherwise the rest of the description is parsed as code)  [= R15.1, COMMENT holes]
 R1.11 RenderContext's completion of "incomplete" internal module paths never applies to a module of the core package
 R1.10 the tag client modules client.py imports are the ones the endpoints emitter writes (grouping agreement, rules of C07)
+R1.25 every signature builder de-collides the argument names it derives from the operation's parameters (duplicate arguments do not compile)   [= R20.14; finding]
 R1.24 a model class never takes a name the endpoint modules import and use (the Protocol base, the exception aliases): the module would not import          [= R20.13]
 R1.23 the regenerated exception-alias module imports ClientError and ServerError unconditionally (it defines aliases for all clients of the core)  [= R11.4]
 R1.22 a method of the render context that registers imports is never skipped on account of a record that outlives the per-file reset of the import collector
@@ -89,6 +90,9 @@ def run(repo: Repo, rep: Report, tier: str) -> None:
     _guarded(rep, rule_cyclic_model_imports, repo, rep, "R1.19")
     _guarded(rep, rule_fields_do_not_shadow_imports, repo, rep, "R1.21")
     _guarded(rep, rule_import_registration_not_memoised, repo, rep, "R1.22")
+    from rules.c20 import rule_signature_builders_decollide
+
+    _guarded(rep, rule_signature_builders_decollide, repo, rep, "R1.25")
     from rules.c20 import rule_models_spare_endpoint_names
 
     _guarded(rep, rule_models_spare_endpoint_names, repo, rep, "R1.24")
